@@ -123,6 +123,7 @@ struct TdSys {
       case 3: phases.push_back(forty); compress_after.push_back(true); break;        // compressed (one compression: reverse_merge set)
       case 4: { phases.push_back(forty); compress_after.push_back(true); const T v[] = {2, 100, -7}; p.assign(v, v + 3); phases.push_back(p); compress_after.push_back(false); break; }
       case 5: { phases.push_back(forty); compress_after.push_back(true); for (int i = 0; i < 12; ++i) p.push_back((T)(1.25 * i)); phases.push_back(p); compress_after.push_back(true); break; } // two compressions
+      case 7: { for (int i = 0; i < 1500; ++i) p.push_back((T)((i * 37 % 1500) * 0.01 - 3)); phases.push_back(p); compress_after.push_back(true); return 200; }   // a much larger k, compressed into far more centroids than a small k allows
       default: { for (int i = 0; i < 60; ++i) p.push_back((T)(0.3 * i - 4)); phases.push_back(p); compress_after.push_back(true);          // different k
                  const T v[] = {1, (T)1e6}; p.assign(v, v + 2); phases.push_back(p); compress_after.push_back(false); return k == 10 ? 20 : 10; }
     }
@@ -449,7 +450,7 @@ template<class T> static void e1_ops(TdSys<T>& sys, bool merges, bool into) {
   sys.ops.push_back(mk<T>(K_SER, 0, 0, 0, false, "serialize"));
   sys.ops.push_back(mk<T>(K_COMPRESS, 0, 0, 0, false, "compress"));
   sys.ops.push_back(mk<T>(K_SELF, 0, 0, 0, false, "merge(self)"));
-  if (merges) for (int j = 0; j <= 6; ++j) sys.ops.push_back(mk<T>(K_MERGE_IN, 0, j, 0, false, "merge(B" + str(j) + ")"));
+  if (merges) for (int j = 0; j <= 7; ++j) sys.ops.push_back(mk<T>(K_MERGE_IN, 0, j, 0, false, "merge(B" + str(j) + ")"));
   if (into) for (int j = 0; j <= 6; ++j) sys.ops.push_back(mk<T>(K_MERGE_INTO, 0, j, 0, false, "B" + str(j) + ".merge(this)"));
 }
 
